@@ -4,7 +4,7 @@
 d="$1"; shift
 cd /repo || exit 2
 if [ -n "$(git status --porcelain --untracked-files=no)" ]; then echo "refusing: /repo has uncommitted changes"; exit 2; fi
-if ! git apply --3way "$d/patch.diff" 2>/tmp/apply.err && ! git apply "$d/patch.diff" 2>>/tmp/apply.err; then echo "$(basename $d): PATCH DOES NOT APPLY"; cat /tmp/apply.err | head -5; git checkout -q -- .; git reset -q; exit 3; fi
+if ! git apply --3way "$d/patch.diff" 2>/tmp/apply.err && ! git apply "$d/patch.diff" 2>>/tmp/apply.err; then echo "$(basename $d): PATCH DOES NOT APPLY"; cat /tmp/apply.err | head -5; git reset -q --hard HEAD; exit 3; fi
 git reset -q
 for id in "$@"; do
   out=$(/verif/check "$id" quick 2>&1); code=$?
